@@ -46,6 +46,13 @@ const (
 	OpGetBucketVersioning     Operation = "GetBucketVersioning"
 	OpPutBucketVersioning     Operation = "PutBucketVersioning"
 	OpListObjectVersions      Operation = "ListObjectVersions"
+
+	OpGetObjectTagging             Operation = "GetObjectTagging"
+	OpPutObjectTagging             Operation = "PutObjectTagging"
+	OpDeleteObjectTagging          Operation = "DeleteObjectTagging"
+	OpTransitionObjectStorageClass Operation = "TransitionObjectStorageClass"
+	OpGetBucketNotification        Operation = "GetBucketNotification"
+	OpPutBucketNotification        Operation = "PutBucketNotification"
 )
 
 type Phase string
